@@ -24,6 +24,103 @@ Qed.
 Lemma regs_eqb_refl : forall a, regs_eqb a a = true.
 Proof. induction a as [|[f c] a IH]; simpl; auto. rewrite Z.eqb_refl, zlist_eqb_refl. exact IH. Qed.
 
+(* ---------------------------------------------------------------- boolean state equality is sound *)
+Definition eqb_ok {A} (e : A -> A -> bool) : Prop := forall a b, e a b = true -> a = b.
+
+Lemma list_eqb_ok : forall A (e : A -> A -> bool), eqb_ok e -> eqb_ok (list_eqb e).
+Proof.
+  intros A e He a. induction a as [|x a IH]; destruct b as [|y b]; simpl; intros H; try discriminate; auto.
+  apply andb_true_iff in H. destruct H as [H1 H2]. f_equal; [apply He; exact H1 | apply IH; exact H2].
+Qed.
+
+Lemma opt_eqb_ok : forall A (e : A -> A -> bool), eqb_ok e -> eqb_ok (opt_eqb e).
+Proof. intros A e He [x|] [y|]; simpl; intros H; try discriminate; auto. f_equal. apply He. exact H. Qed.
+
+Ltac split_andb :=
+  repeat match goal with H : _ && _ = true |- _ => apply andb_true_iff in H; destruct H end.
+
+Lemma Z_eqb_ok : eqb_ok Z.eqb. Proof. intros a b H. apply Z.eqb_eq. exact H. Qed.
+Lemma nat_eqb_ok : eqb_ok Nat.eqb. Proof. intros a b H. apply Nat.eqb_eq. exact H. Qed.
+Lemma bool_eqb_ok : eqb_ok Bool.eqb. Proof. intros a b H. apply Bool.eqb_prop. exact H. Qed.
+Lemma zlist_eqb_ok : eqb_ok zlist_eqb. Proof. exact zlist_eqb_eq. Qed.
+Lemma exn_eqb_ok : eqb_ok exn_eqb. Proof. intros [] []; simpl; intros H; try discriminate; reflexivity. Qed.
+Lemma tkind_eqb_ok : eqb_ok tkind_eqb. Proof. intros [] []; simpl; intros H; try discriminate; reflexivity. Qed.
+Lemma tpc_eqb_ok : eqb_ok tpc_eqb. Proof. intros [] []; simpl; intros H; try discriminate; reflexivity. Qed.
+
+Lemma outcome_eqb_ok : eqb_ok outcome_eqb.
+Proof.
+  intros [c|e] [d|f]; simpl; intros H; try discriminate; f_equal;
+    [apply zlist_eqb_ok | apply exn_eqb_ok]; exact H.
+Qed.
+
+Lemma entry_eqb_ok : eqb_ok entry_eqb.
+Proof.
+  intros [w s f] [w' s' f']; unfold entry_eqb; simpl; intros H. split_andb.
+  f_equal; [apply bool_eqb_ok | apply Z_eqb_ok | apply nat_eqb_ok]; assumption.
+Qed.
+
+Lemma fe_eqb_ok : eqb_ok fe_eqb.
+Proof.
+  intros [f e] [g e']; unfold fe_eqb; simpl; intros H. split_andb.
+  f_equal; [apply Z_eqb_ok | apply entry_eqb_ok]; assumption.
+Qed.
+
+Lemma fc_eqb_ok : eqb_ok fc_eqb.
+Proof.
+  intros [f e] [g e']; unfold fc_eqb; simpl; intros H. split_andb.
+  f_equal; [apply Z_eqb_ok | apply zlist_eqb_ok]; assumption.
+Qed.
+
+Lemma core_eqb_ok : eqb_ok core_eqb.
+Proof.
+  intros [m fu h d] [m' fu' h' d']; unfold core_eqb; simpl; intros H. split_andb.
+  f_equal; [apply Z_eqb_ok | apply (list_eqb_ok _ _ fe_eqb_ok) | apply zlist_eqb_ok | apply (list_eqb_ok _ _ fc_eqb_ok)]; assumption.
+Qed.
+
+Lemma task_eqb_ok : eqb_ok task_eqb.
+Proof.
+  intros [k f d p r] [k' f' d' p' r']; unfold task_eqb; simpl; intros H. split_andb.
+  f_equal; [apply tkind_eqb_ok | apply Z_eqb_ok | apply zlist_eqb_ok | apply tpc_eqb_ok
+           | apply (opt_eqb_ok _ _ outcome_eqb_ok)]; assumption.
+Qed.
+
+Lemma op_eqb_ok : eqb_ok op_eqb.
+Proof.
+  intros [f|f c|f] [g|g d|g]; simpl; intros H; try discriminate; split_andb; f_equal;
+    try (apply Z_eqb_ok; assumption); try (apply zlist_eqb_ok; assumption).
+Qed.
+
+Lemma cpc_eqb_ok : eqb_ok cpc_eqb.
+Proof.
+  intros [| |x|f p] [| |y|g q]; simpl; intros H; try discriminate; try reflexivity; split_andb; f_equal;
+    try (apply Z_eqb_ok; assumption); try (apply nat_eqb_ok; assumption); try (apply bool_eqb_ok; assumption).
+Qed.
+
+Lemma client_eqb_ok : eqb_ok client_eqb.
+Proof.
+  intros [o i p] [o' i' p']; unfold client_eqb; simpl; intros H. split_andb.
+  f_equal; [apply (list_eqb_ok _ _ op_eqb_ok) | apply nat_eqb_ok | apply cpc_eqb_ok]; assumption.
+Qed.
+
+Lemma result_eqb_ok : eqb_ok result_eqb.
+Proof.
+  intros [c|p| |e] [d|q| |f]; simpl; intros H; try discriminate; try reflexivity; f_equal;
+    try (apply zlist_eqb_ok; assumption); try (apply bool_eqb_ok; assumption); try (apply exn_eqb_ok; assumption).
+Qed.
+
+Lemma event_eqb_ok : eqb_ok event_eqb.
+Proof.
+  intros [t i o|t i r] [u j p|u j q]; simpl; intros H; try discriminate; split_andb; f_equal;
+    try (apply nat_eqb_ok; assumption); try (apply op_eqb_ok; assumption); try (apply result_eqb_ok; assumption).
+Qed.
+
+Lemma gstate_eqb_ok : eqb_ok gstate_eqb.
+Proof.
+  intros [c cl ts h k] [c' cl' ts' h' k']; unfold gstate_eqb; simpl; intros H. split_andb.
+  f_equal; [apply core_eqb_ok | apply (list_eqb_ok _ _ client_eqb_ok) | apply (list_eqb_ok _ _ task_eqb_ok)
+           | apply (list_eqb_ok _ _ event_eqb_ok) | apply Z_eqb_ok]; assumption.
+Qed.
+
 (* ---------------------------------------------------------------- picks *)
 Lemma picks_spec : forall A (l : list A) a r,
   In (a, r) (picks l) <-> exists l1 l2, l = l1 ++ a :: l2 /\ r = l1 ++ l2.
@@ -124,8 +221,8 @@ Proof.
   intros s st H. unfold smem in H.
   destruct (PositiveMap.find (enc s) st) as [l|] eqn:E; [|discriminate].
   apply existsb_exists in H. destruct H as (x & Hx & Heq).
-  destruct (gstate_eq_dec s x) as [->|]; [|discriminate].
-  unfold sset_states. apply in_flat_map. exists (enc x, l). split; [|exact Hx].
+  apply gstate_eqb_ok in Heq. subst x.
+  unfold sset_states. apply in_flat_map. exists (enc s, l). split; [|exact Hx].
   apply PositiveMap.elements_correct. exact E.
 Qed.
 
@@ -187,4 +284,92 @@ Proof.
   intros fl cf P fuel H. unfold check_conf in H.
   destruct (reach_set fl cf fuel) as [st|]; [|discriminate].
   exact (closed_set_invariant fl cf P st H).
+Qed.
+
+(* ---------------------------------------------------------------- from the boolean predicates to the statements *)
+Lemma state_ok_strict_spec : forall fl cf s,
+  state_ok_strict fl cf s = true -> enabled fl (cfg_max cf) s = [] ->
+  quiescent s = true /\ g_k s = 0 /\
+  lin_spec (cfg_disk cf) (rev (g_hist s)) (disk (g_core s)) /\ final_agree s = true.
+Proof.
+  intros fl cf s H He. unfold state_ok_strict in H. rewrite He in H.
+  apply andb_true_iff in H. destruct H as [H Hg]. apply andb_true_iff in H. destruct H as [Hq Hk].
+  unfold good_final in Hg. apply andb_true_iff in Hg. destruct Hg as [Hl Ha].
+  apply Z.eqb_eq in Hk. apply linearizable_iff in Hl. auto.
+Qed.
+
+Lemma state_ok_spec : forall fl cf s,
+  state_ok fl cf s = true -> enabled fl (cfg_max cf) s = [] ->
+  quiescent s = true /\
+  (g_k s = 0 -> lin_spec (cfg_disk cf) (rev (g_hist s)) (disk (g_core s)) /\ final_agree s = true).
+Proof.
+  intros fl cf s H He. unfold state_ok in H. rewrite He in H.
+  apply andb_true_iff in H. destruct H as [Hq Hg]. split; [exact Hq|].
+  intros Hk. rewrite Hk in Hg. simpl in Hg.
+  unfold good_final in Hg. apply andb_true_iff in Hg. destruct Hg as [Hl Ha].
+  apply linearizable_iff in Hl. auto.
+Qed.
+
+Lemma check_conf_full : forall fl cf fuel,
+  check_conf fl cf (state_ok_strict fl cf) fuel = true -> C18_full_statement fl cf.
+Proof.
+  intros fl cf fuel H s Hr. destruct (check_conf_invariant _ _ _ _ H s Hr) as [HP Hw].
+  split; [exact Hw|]. intros He.
+  destruct (state_ok_strict_spec _ _ _ HP He) as (Hq & _ & Hl & Ha). auto.
+Qed.
+
+Lemma check_conf_outside : forall fl cf fuel,
+  check_conf fl cf (state_ok fl cf) fuel = true -> C18_outside_K_statement fl cf.
+Proof.
+  intros fl cf fuel H s Hr. destruct (check_conf_invariant _ _ _ _ H s Hr) as [HP Hw].
+  split; [exact Hw|]. intros He. exact (state_ok_spec _ _ _ HP He).
+Qed.
+
+Lemma full_implies_outside : forall fl cf, C18_full_statement fl cf -> C18_outside_K_statement fl cf.
+Proof.
+  intros fl cf H s Hr. destruct (H s Hr) as [Hw Hf]. split; [exact Hw|].
+  intros He. destruct (Hf He) as (Hq & Hl & Ha). auto.
+Qed.
+
+Lemma check_universe_sound : forall fl U fuel, check_universe fl U fuel = true ->
+  forall cf, In cf U -> C18_outside_K_statement fl cf /\ (racy cf = false -> C18_full_statement fl cf).
+Proof.
+  intros fl U fuel H cf Hin. unfold check_universe in H. rewrite forallb_forall in H.
+  specialize (H cf Hin). unfold conf_pred in H. destruct (racy cf) eqn:Er.
+  - split; [eapply check_conf_outside; exact H | discriminate].
+  - pose proof (check_conf_full _ _ _ H) as Hf. split; [apply full_implies_outside; exact Hf | intros _; exact Hf].
+Qed.
+
+Lemma check_universe_app : forall fl A B fuel,
+  check_universe fl A fuel = true -> check_universe fl B fuel = true -> check_universe fl (A ++ B) fuel = true.
+Proof. intros fl A B fuel HA HB. unfold check_universe in *. rewrite forallb_app, HA, HB. reflexivity. Qed.
+
+(* ---------------------------------------------------------------- a schedule that runs is a reachable state *)
+Lemma run_reach : forall fl cf sch s s', reach fl cf s -> run fl (cfg_max cf) s sch = (s', None) -> reach fl cf s'.
+Proof.
+  intros fl cf sch. induction sch as [|t r IH]; intros s s' Hr H; simpl in H.
+  - inversion H; subst. exact Hr.
+  - destruct (step fl (cfg_max cf) s t) as [s1|] eqn:Es; [|discriminate].
+    destruct (run fl (cfg_max cf) s1 r) as [s2 [i|]] eqn:Er; [discriminate|].
+    inversion H; subst. eapply IH; [|exact Er]. eapply reach_step; eauto.
+Qed.
+
+Lemma not_lin : forall init h final, linearizable init h final = false -> ~ lin_spec init h final.
+Proof. intros init h final H Hl. apply linearizable_iff in Hl. congruence. Qed.
+
+(* what a witness schedule establishes *)
+Definition refutes (fl : flags) (cf : config) (sch : list nat) (check : gstate -> bool) : bool :=
+  match run fl (cfg_max cf) (init cf) sch with
+  | (s, None) => match enabled fl (cfg_max cf) s with [] => check s | _ => false end
+  | _ => false
+  end.
+
+Lemma refutes_sound : forall fl cf sch check, refutes fl cf sch check = true ->
+  exists s, reach fl cf s /\ enabled fl (cfg_max cf) s = [] /\ check s = true.
+Proof.
+  intros fl cf sch check H. unfold refutes in H.
+  destruct (run fl (cfg_max cf) (init cf) sch) as [s [i|]] eqn:Er; [discriminate|].
+  destruct (enabled fl (cfg_max cf) s) eqn:Ee; [|discriminate].
+  exists s. split; [|split; auto].
+  eapply run_reach; [apply reach_init | exact Er].
 Qed.
